@@ -42,6 +42,10 @@ var (
 	flagXDir    = flag.String("sim.xdir", "", "scratch directory for the cross-build blob exchange (C11)")
 )
 
+// shrinkBeat, when set, is called before every shrink execution (the worker writes a heartbeat line so that the
+// orchestrator's stall watchdog can tell a long minimisation from a stuck process).
+var shrinkBeat func()
+
 // replayInputs holds the materialised inputs of the replay file being re-executed (nil otherwise).
 var replayInputs map[string]string
 
@@ -150,6 +154,9 @@ func shrink(t *testing.T, prop, tier string, tape []int, sig string, budget time
 	try := func(cand []int) bool {
 		if time.Now().After(deadline) {
 			return false
+		}
+		if shrinkBeat != nil {
+			shrinkBeat()
 		}
 		tries++
 		res := execute(t, prop, tier, NewReplay(cand))
@@ -287,6 +294,13 @@ func WorkerMain(t *testing.T) {
 		defer fplog.Flush()
 	}
 	prop, tier := *flagProp, *flagTier
+	lastBeat := time.Now()
+	shrinkBeat = func() {
+		if time.Since(lastBeat) > 10*time.Second {
+			lastBeat = time.Now()
+			emit(outLine{T: "beat", Msg: "minimising"})
+		}
+	}
 	known := loadKnown(*flagKnown)
 	start := time.Now()
 	budget := time.Duration(*flagBudget * float64(time.Second))
@@ -356,7 +370,9 @@ func WorkerMain(t *testing.T) {
 			v := res.Violations[0]
 			tape := c.Values()
 			shr, tries := shrink(t, prop, tier, tape, v.Sig, time.Duration(*flagShrink*float64(time.Second)))
+			emit(outLine{T: "beat", Msg: "minimised"})
 			final := execute(t, prop, tier, NewReplay(shr))
+			emit(outLine{T: "beat", Msg: "re-executed"})
 			if final.Harness != "" || !hasSig(final, v.Sig) {
 				shr = tape
 				final = res
